@@ -14,6 +14,7 @@ GenStop == spc = "returned" \/ Len(hist) >= MaxLen
 GenNext ==
   /\ ~GenStop
   /\ \/ Len(hist) >= SigAfter /\ Sig_Send /\ hist' = Append(hist, Lab("Sig_Send", -1, ""))
+     \/ Sig_Again /\ hist' = Append(hist, Lab("Sig_Again", -1, ""))
      \/ \E c \in Clients :
           \/ Cli_Connect(c) /\ hist' = Append(hist, Lab("Cli_Connect", c, ""))
           \/ Cli_SendHalf(c) /\ hist' = Append(hist, Lab("Cli_SendHalf", c, ""))
